@@ -121,7 +121,9 @@ pub fn apply_route(p: &mut Prog, s: &RouteSpec, id: u32) -> Option<()> {
 // random trees and routes
 // ------------------------------------------------------------------------------------------
 
-const MOD_NAMES: [&str; 4] = ["ma", "mb", "mc", "md"];
+/// two pairs in which one name is a proper string prefix of the other (a privacy or resolution test on the
+/// mangled string instead of on path segments confuses `ma` with `mab`)
+const MOD_NAMES: [&str; 4] = ["ma", "mab", "mc", "mc2"];
 const FN_NAMES: [&str; 5] = ["fa", "fb", "fc", "fd", "fe"];
 
 fn gen_module(g: &mut Gen, name: &str, depth: usize, next_val: &mut f64, budget: &mut usize) -> Module {
@@ -225,7 +227,7 @@ pub fn gen_route(g: &mut Gen, p: &Prog) -> RouteSpec {
         }
     };
     let unq = !matches!(kind, Kind::Qual { .. } | Kind::Own | Kind::Reexp { fin: Fin::Path, .. });
-    let wrap = if unq { Wrap::ALL[g.weighted(&[5, 2, 1, 1, 1, 1, 1])] } else { Wrap::ALL[g.weighted(&[5, 2])] };
+    let wrap = if unq { Wrap::ALL[g.weighted(&[5, 2, 1, 1, 1, 1, 1, 0, 2])] } else { Wrap::ALL[g.weighted(&[5, 2])] };
     RouteSpec { target, pos, kind, wrap }
 }
 
